@@ -10,6 +10,7 @@ import EoVerif.Model.Num
   changes so that these no longer check, the tie is reported as "not established" and the check falls back
   to the behavioural correspondence at thorough depth; that alone is never an alarm.
 -/
+set_option linter.unusedSimpArgs false
 namespace EoVerif.SrcTie
 open EoVerif
 
@@ -70,14 +71,14 @@ theorem decode_number_eq (bs : Bytes) :
     simp only [Py.forRange, h]
     by_cases ha : (a : Int) = 254 <;>
       (have ha' : a = 254 ↔ (a : Int) = 254 := by omega
-       simp [Py.forRangeGo, Py.len, Num.decodeAux, Py.getItem, Py.normIndex, ha, ha'])
+       simp [Py.forRangeGo, Src.Num.decode_number_loop1_body, char_max, short_max, three_max, Py.len, Num.decodeAux, Py.getItem, Py.normIndex, ha, ha'])
   | [a, b] =>
     have h : (min (Py.len ([a, b].map Int.ofNat)) 4).toNat = 2 := by simp [Py.len]; omega
     simp only [Py.forRange, h]
     by_cases ha : (a : Int) = 254 <;> by_cases hb : (b : Int) = 254 <;>
       (have ha' : a = 254 ↔ (a : Int) = 254 := by omega
        have hb' : b = 254 ↔ (b : Int) = 254 := by omega
-       simp [Py.forRangeGo, Py.len, Num.decodeAux, Py.getItem, Py.normIndex, ha, hb, ha', hb'])
+       simp [Py.forRangeGo, Src.Num.decode_number_loop1_body, char_max, short_max, three_max, Py.len, Num.decodeAux, Py.getItem, Py.normIndex, ha, hb, ha', hb'])
   | [a, b, c] =>
     have h : (min (Py.len ([a, b, c].map Int.ofNat)) 4).toNat = 3 := by simp [Py.len]; omega
     simp only [Py.forRange, h]
@@ -85,7 +86,7 @@ theorem decode_number_eq (bs : Bytes) :
       (have ha' : a = 254 ↔ (a : Int) = 254 := by omega
        have hb' : b = 254 ↔ (b : Int) = 254 := by omega
        have hc' : c = 254 ↔ (c : Int) = 254 := by omega
-       simp [Py.forRangeGo, Py.len, Num.decodeAux, Py.getItem, Py.normIndex, ha, hb, hc, ha', hb', hc']
+       simp [Py.forRangeGo, Src.Num.decode_number_loop1_body, char_max, short_max, three_max, Py.len, Num.decodeAux, Py.getItem, Py.normIndex, ha, hb, hc, ha', hb', hc']
        try omega)
   | a :: b :: c :: d :: rest =>
     have h : (min (Py.len ((a :: b :: c :: d :: rest).map Int.ofNat)) 4).toNat = 4 := by simp [Py.len]; omega
@@ -100,7 +101,7 @@ theorem decode_number_eq (bs : Bytes) :
        have h1 : (1 : Int) < ↑rest.length + 1 + 1 + 1 + 1 := by omega
        have h2 : (2 : Int) < ↑rest.length + 1 + 1 + 1 + 1 := by omega
        have h3 : (3 : Int) < ↑rest.length + 1 + 1 + 1 + 1 := by omega
-       simp [Py.forRangeGo, Py.len, Num.decodeAux, Py.getItem, Py.normIndex, ha, hb, hc, hd, ha', hb', hc', hd', h0, h1, h2, h3, hz]
+       simp [Py.forRangeGo, Src.Num.decode_number_loop1_body, char_max, short_max, three_max, Py.len, Num.decodeAux, Py.getItem, Py.normIndex, ha, hb, hc, hd, ha', hb', hc', hd', h0, h1, h2, h3, hz]
        try omega)
 
 end EoVerif.SrcTie
